@@ -101,6 +101,8 @@ def tasks_for(tier):
         (dict(levy='davie', size=(1, 2), cache_size=2), 0, 1, False, mp, to),
         (dict(levy='foster', size=(1, 2), cache_size=45), 1, 1, False, mp, to),
         (dict(levy='space-time', size=(1,), cache_size=1), 0, 1, True, mp, to),
+        # a time axis that straddles zero: split points and end points may be exactly 0.0
+        (dict(levy='none', size=(1,), cache_size=1, t0=Fraction(-1, 2), t1=Fraction(1, 2)), 0, 1, True, mp, to),
         (dict(levy='davie', size=(1, 2), cache_size=None), 1, 1, False, mp, to),
         (dict(levy='space-time', size=(1,), cache_size=1, tol=0.1, halfway=True, t1=Fraction(1, 2)), 0, 1, False, mp, to),
         (dict(levy='none', size=(1,), cache_size=3, dt=0.25), 0, 1, False, mp, to),
